@@ -451,7 +451,7 @@ impl SubstreamHandle {
             WriterState::Fin => {
                 // Poll the timeout - if it fires, force shutdown completion
                 match self.fin_ack_timeout.as_mut() {
-                    Some(timeout) =>
+                    Some(timeout) => {
                         if timeout.as_mut().poll(cx).is_ready() {
                             tracing::debug!(
                                 target: LOG_TARGET,
@@ -459,7 +459,8 @@ impl SubstreamHandle {
                             );
                         } else {
                             return Poll::Pending;
-                        },
+                        }
+                    }
                     None => {
                         tracing::warn!(
                             target: LOG_TARGET,
@@ -571,8 +572,9 @@ impl tokio::io::AsyncRead for Substream {
         }
 
         match futures::ready!(self.rx.poll_recv(cx)) {
-            None if matches!(self.channel_state.get(), ChannelState::Reset) =>
-                Poll::Ready(Err(tokio::io::ErrorKind::ConnectionReset.into())),
+            None if matches!(self.channel_state.get(), ChannelState::Reset) => {
+                Poll::Ready(Err(tokio::io::ErrorKind::ConnectionReset.into()))
+            }
             None => Poll::Ready(Ok(())),
             Some(Message { payload, flag: _ }) => {
                 if payload.len() > MAX_FRAME_SIZE {
